@@ -307,7 +307,7 @@ def run(chk):
                 shutil.copytree(job["copy_from"], d)
             else:
                 L.write_threads(d, job["threads"], obs_override=job.get("obs"), meta_override=job.get("meta"))
-            rc, out, err = trace.run_tool(build, "ovniemu", [], d, timeout=20)
+            rc, out, err = trace.run_tool(L.keep_build(build), "ovniemu", [], d, timeout=20)
             files = L.files_of(d) if (job["expect"] is True and accepted(rc, out, err)) or job["cls"] == "valid" and not accepted(rc, out, err) else None
             shutil.rmtree(d, ignore_errors=True)
             return rc, (err or "")[-1500:], "emulation finished ok" in (err or "") + (out or ""), files
